@@ -1,6 +1,7 @@
 package main
 
 import (
+	"os"
 	"crypto/tls"
 	"errors"
 	"fmt"
@@ -88,7 +89,16 @@ func (s *c13srv) handle(c net.Conn, kind string) {
 		sc["f1"], sc["f2"] = "1000", "01"+smbit+"0"
 	}
 	abrupt := false
+	if s.tls {
+		// the application reaches the server under a host name of its own (TLS ServerName alt.example), the XMPP
+		// domain is localhost: the certificate has to be valid for the domain as well
+		sc["cert"] = "both"
+	}
 	switch kind {
+	case "h": // a certificate that is valid for the host name dialled but NOT for the XMPP domain: a TLS policy failure
+		sc["cert"], kind = "altonly", "p"
+	case "u": // a certificate from an unknown issuer
+		sc["cert"], kind = "untrusted", "p"
 	case "t":
 		sc["auth"] = "other"
 	case "p":
@@ -205,10 +215,17 @@ func c13run(sm, useTLS bool, first, lives string) string {
 	}
 	if useTLS {
 		cfg.Insecure = false
-		cfg.TLSConfig = &tls.Config{RootCAs: getPKI().pool}
+		cfg.TLSConfig = &tls.Config{RootCAs: getPKI().pool, ServerName: "alt.example"}
 	}
 	xmpp.VerifSetSMResume(cfg, true)
-	client, err := xmpp.NewClient(cfg, router, func(error) { mu.Lock(); errh++; mu.Unlock() })
+	client, err := xmpp.NewClient(cfg, router, func(e error) {
+		mu.Lock()
+		errh++
+		mu.Unlock()
+		if os.Getenv("C13DEBUG") != "" {
+			fmt.Fprintln(os.Stderr, "C13DEBUG errorhandler:", e)
+		}
+	})
 	if err != nil {
 		return "newclient-failed"
 	}
@@ -366,7 +383,7 @@ func c13run(sm, useTLS bool, first, lives string) string {
 					stalled = "attempt-" + a
 					break lifeLoop
 				}
-				if a == "p" || a == "P" {
+				if a == "p" || a == "P" || a == "h" || a == "u" {
 					gaveUp = true
 					break lifeLoop
 				}
@@ -379,6 +396,11 @@ func c13run(sm, useTLS bool, first, lives string) string {
 	conns1 := srv.conns
 	srv.mu.Unlock()
 	time.Sleep(350 * time.Millisecond)
+	if gaveUp {
+		// after an attempt that has to end the retry loop: closing the failed connection may wait ConnectTimeout (1 s)
+		// for the peer's closing tag - a loop that goes on shows only after that
+		time.Sleep(1200 * time.Millisecond)
+	}
 	srv.mu.Lock()
 	conns2, unexpected, resumed, hellos := srv.conns, srv.unexpected, srv.resumed, srv.hellos
 	srv.mu.Unlock()
@@ -463,6 +485,11 @@ func (c13) Generate(rng *rand.Rand, tier string, st *Stats) []Case {
 	mkm("smtls", "o", "drop:o;drop:t,o")
 	mkm("smtls", "o", "graceful:x,o;wfail:o")
 	mkm("nosmtls", "o", "drop:t,p")
+	// a TLS policy failure on a reconnection attempt ends the retry loop: certificate not valid for the XMPP domain
+	// (though valid for the host name the TLS layer checks), certificate of an unknown issuer
+	mkm("nosmtls", "o", "drop:h")
+	mkm("smtls", "o", "drop:o;graceful:t,h")
+	mkm("smtls", "o", "drop:u")
 	endings := []string{"drop", "graceful", "wfail"}
 	attSeqs := []string{"o", "t,o", "x,o", "T,t,o", "r,o", "x,T,o", "p", "t,P"}
 	for _, sm := range []bool{false, true} {
